@@ -85,7 +85,7 @@ func checkMain(args []string) {
 	}
 	for i, s := range states {
 		stt.States++
-		emit(s, []string{"lit", "api"}[i%2]) // as a literal, or through AddType / RemoveType
+		emit(s, []string{"lit", "api", "litattrs"}[i%3]) // as a literal, through AddType / RemoveType, or with attributes named like the relationships
 	}
 
 	// Larger schemas: 3..5 types, a coherent base made of two-way pairs and
